@@ -192,6 +192,17 @@ CLAIMED = {
    note='PARTIAL by nature: interoperation of two programs over TCP is observed, not proved; the theorems carry the connected-session logic and the codec.  Trusted: Coq kernel; '
         'extraction + driver; pylogix as installed; its status strings are taken as the documented statuses; UDT / STRING tags and pylogix tag-list services are not exercised.',
    technique='Coq proof (induction over connected histories; verified codec fields) + differential runs of two independent clients against the live simulator', design='6 C14'),
+ 'C09': dict(
+   text='Coq theorems (Properties/C09.v): for every interleaving of closure registrations and parser exits - threads acting while another thread\'s closure runs included - every '
+        'post-processing closure of dfa_post is run by the thread that registered it and the per-thread lists stay separate; a refused request or a read never changes the array; '
+        'under every schedule of any number of sessions whose requests are atomic steps, whole-range writes of one repeated value are only ever observed whole (no torn reads).  '
+        'Tie / observation: the real dfa_post driven through generated interleavings with thread identity injected from outside (log compared with the extracted model); element '
+        'ranges stored / fetched by exactly one slice operation on a recording backing list, array state compared with the model; a live simulator with switch interval 1e-5 s and '
+        '4-6 simultaneous sessions (bundled / pipelined private and shared traffic): own replies only, read-your-writes, no torn or invented values.',
+   note='PARTIAL by nature: thread scheduling, the GIL and lock order are the runtime\'s; a theorem cannot exhibit a race.  The models state what must hold under every schedule, the '
+        'harness chooses interleavings at the granularity of dfa_post calls / closure bodies and samples finer ones by stress.  Trusted: Coq kernel; extraction + driver; '
+        'atomicity of a single list slice operation under CPython\'s GIL.',
+   technique='Coq proof (invariant over event trees; induction over schedules) + deterministic interleaving replay of the real objects + live multi-session stress', design='6 C09'),
 }
 PENDING = {}
 ALL = ['C%02d' % i for i in range(1, 21)]
